@@ -2,7 +2,7 @@
    list, prod, unit, sumbool map to OCaml's; Z/positive/N/nat stay inductive.
    No Extract Constant. *)
 From Coq Require Import Extraction ExtrOcamlBasic ZArith List.
-From Corro Require Import Lib.Ivl Model.Chunk Model.Book Model.SeqRows Model.BookOps Model.Needs Model.Members Lib.Utf8 Model.Pack Model.Wire Model.WireDescs Model.Ingest Model.IngestSched Model.ClusterGate Model.Partial Model.Serve Model.LocalTx Model.Crdt Model.CrdtSpec Model.Ivm Model.Updates Model.SchemaDiff Model.Authz Gen.Router Model.Catchup Gen.CatchupCfg Model.SubLife Gen.SubLifeCfg Model.Backup Model.WritePool.
+From Corro Require Import Lib.Ivl Model.Chunk Model.Book Model.SeqRows Model.BookOps Model.Needs Model.Members Lib.Utf8 Model.Pack Model.Wire Model.WireDescs Model.Ingest Model.IngestSched Model.ClusterGate Model.Partial Model.Serve Model.LocalTx Model.Crdt Model.CrdtSpec Model.Ivm Model.Updates Model.SchemaDiff Model.Authz Gen.Router Model.Catchup Gen.CatchupCfg Model.SubLife Gen.SubLifeCfg Model.Backup Model.RestoreLock Gen.RestoreLocks Model.WritePool.
 Extraction Language OCaml.
 Extraction "model.ml"
   Z.add Z.mul Z.sub Z.opp Z.div_eucl Z.of_nat Z.to_nat Z.compare Z.eqb Z.ltb Z.leb
@@ -31,4 +31,5 @@ Extraction "model.ml"
   Catchup.catch_up Catchup.consecutive_from Catchup.client_run CatchupCfg.catchup_attempts CatchupCfg.forward_filters
   SubLife.lrun SubLife.start_node SubLife.s_init SubLife.restored_at_start SubLife.restore_is_sound SubLifeCfg.cancel_returns
   Backup.backup Backup.restore Backup.author
+  RestoreLock.run_locks RestoreLocks.lock_all_probe RestoreLocks.lock_all_rollback RestoreLocks.lock_all_wal
   WritePool.wp_step WritePool.pool_init WritePool.waiting.
